@@ -10,7 +10,7 @@ every run (`lake env lean lean/.lake/gen/<name>.lean`).
 Outcome per tie (structural.run counts them):
   ok            proved                                                   -> obligation discharged
   failed        not proved AND the two functions differ on a sample point -> broken obligation
-  not proved but equal on every sample point, or source outside the translator's subset
+  not proved but equal on every sample point, generated text that does not elaborate, or source outside the translator's subset
                 -> Unsupported: no obligation, a note in the evidence (a harmless rewrite must not raise an alarm by itself;
                    the differential tie still stands)
 All Lean runs of one property are started together (threads) and cached, so the ties cost one Lean start-up.
@@ -571,11 +571,14 @@ def one(name, fn, S):
         return "ok", ""
     # not proved: do the generated and the model function differ somewhere?
     code2, out2 = lean_run(name + "Samples", head + defs + "\n" + samples)
-    last = [ln for ln in out2.strip().splitlines() if ln.strip()][-1:] or [""]
-    if code2 == 0 and "error" not in out2 and last[0].strip() == "true":
+    last = ([ln.strip() for ln in out2.strip().splitlines() if ln.strip()][-1:] or [""])[0]
+    if code2 == 0 and "error" not in out2 and last == "true":
         return "unsupported", "translated, but the equality with the model was not proved by the generated script " \
                               "(the two agree on every sample point)"
-    return "failed", (out[-500:] + " | sample comparison: " + out2[-200:])
+    if code2 == 0 and "error" not in out2 and last == "false":
+        return "failed", (out[-500:] + " | the generated definition and the model function differ on a sample point")
+    # the generated definition does not even elaborate: a limit of the translator, not a statement about the code
+    return "unsupported", "translated, but the generated Lean text does not elaborate: " + out2[-200:]
 
 
 def run_all():
